@@ -1350,7 +1350,8 @@ MANIFEST = {
                   'parameter mappings that rebind names. Constructor claims proved: concatenate/@/with_appended, pad_to, '
                   'double with_time_reversal, with_repetition/** count merging, chained with_mapping (incl. parameter '
                   'mappings merged by substitution: equal programs), with_parallel_atomic (distinct channels), chained '
-                  'with_parallel_channels (guarded + refuted). Not proved: freedom from KeyError of compiled leaves. '
+                  'with_parallel_channels (guarded + refuted). Freedom from KeyError is proved only for the leaf of an '
+                  'un-collapsed atom under a chain without LinearTransformation, not for whole compiled programs. '
                   'The model is tied to /repo by an exact correspondence check.',
     'level_note': 'see notes/C05.md for which statements are full / guarded / only tested',
     'technique': 'Coq proof by induction over template trees (frame lemma on builder states, scope-threading refinement) '
